@@ -400,6 +400,8 @@ def units(tier):
     for i in range(len(VAR_SPECIAL)):
         us.append({"kind": "var", "index": i})
     us.append({"kind": "errors"})
+    for w in (8, 16, 24, 32):
+        us.append({"kind": "ctx-swapped", "width": w})
     return us
 
 
@@ -451,6 +453,8 @@ def run_unit(unit, tier):
         run_layout(layout, datas, r, impl="streaming")
     elif k == "errors":
         run_errors(r)
+    elif k == "ctx-swapped":
+        run_ctx_swapped(unit["width"], r)
     return r
 
 
@@ -464,6 +468,55 @@ def run_layout(layout, datas, r, both=False, impl=None):
         for v in check_one(layout, impls, data, r, ls):
             r.violation(v["sig"], v["case"], v["detail"])
     r.sample({"layout": layout, "impls": names, "regions": len(datas)}, cap=2)
+
+
+def run_ctx_swapped(w, r):
+    """`swapped` may be a context expression: under each value of the key the field must behave like the field with that constant,
+    on the pre-read path, the streaming path and for BytesInteger; the same instance is used under both contexts alternately"""
+    import construct as C
+    this = C.this
+    n = w // 8
+    vals = patterns(w) if w > 16 else (list(range(256)) if w == 8 else boundary16())
+    for signed in (False, True):
+        pairs = [
+            ("sized", lambda sw: C.Bitwise(C.BitsInteger(w, signed=signed, swapped=sw))),
+            ("streaming", lambda sw: C.Bitwise(C.Struct("v" / C.BitsInteger(w, signed=signed, swapped=sw), "rest" / C.GreedyBytes))),
+            ("bytes", lambda sw: C.BytesInteger(n, signed=signed, swapped=sw)),
+            ("struct-member", lambda sw: C.Struct("h" / C.Byte, "v" / C.Bitwise(C.BitsInteger(w, signed=signed, swapped=sw)), "t" / C.Byte)),
+        ]
+        for pname, mk_ in pairs:
+            dyn = mk_(this._params.le)
+            const = {False: mk_(False), True: mk_(True)}
+            for v in vals:
+                data = v.to_bytes(n, "big")
+                if pname == "struct-member":
+                    data = b"\x01" + data + b"\x02"
+                for le in (False, True, True, False):
+                    r.states += 1
+                    a = tryp(lambda: T.norm(const[le].parse(data)))
+                    b = tryp(lambda: T.norm(dyn.parse(data, le=le)))
+                    r.case(nontrivial=a[0] == "ok", outcome="ctx-swapped", transitions=2, validated=1)
+                    if a != b:
+                        r.violation("C10/ctx-swapped/parse-differs/%s" % pname, {"t": "ctx-swapped", "width": w, "signed": signed, "path": pname, "data": data, "le": le},
+                                    "%d-bit %s field, swapped=this._params.le with le=%r on %s (%s): %r, with the constant %r" % (w, "signed" if signed else "unsigned", le, data.hex(), pname, b, a))
+                        continue
+                    if a[0] == "ok":
+                        ba = tryp(lambda: const[le].build(a[1]))
+                        bb = tryp(lambda: dyn.build(a[1], le=le))
+                        if ba != bb or ba != ("ok", data):
+                            r.violation("C10/ctx-swapped/build-differs/%s" % pname, {"t": "ctx-swapped", "width": w, "signed": signed, "path": pname, "data": data, "le": le},
+                                        "%d-bit field le=%r (%s): build of %r gives %r, with the constant %r, parsed from %s" % (w, le, pname, a[1], bb, ba, data.hex()))
+    r.sample({"ctx_swapped_width": w, "values": len(vals)})
+
+
+def tryp(f):
+    import construct as C
+    try:
+        return ("ok", f())
+    except C.ConstructError as e:
+        return ("rej", type(e).__name__)
+    except Exception as e:
+        return ("foreign", type(e).__name__)
 
 
 def run_errors(r):
@@ -507,6 +560,9 @@ def run_errors(r):
 
 
 def replay(case):
+    if case.get("t") == "ctx-swapped":
+        r = UnitResult(); run_ctx_swapped(case["width"], r)
+        return [v for v in r.violations if v["case"].get("path") == case.get("path") and v["case"].get("data") == case.get("data")] or r.violations[:1]
     if case.get("errors"):
         r = UnitResult(); run_errors(r); return r.violations
     layout, data = case["layout"], case["data"]
